@@ -441,3 +441,173 @@ func (g *c01gen) history() []string {
 	}
 	return ops
 }
+
+// scenario: directed shapes around "a declaration that loses now and wins later": a winner, a loser that
+// shares its backend with an unrelated ingress (another host, another tracker component), then the event
+// that removes the winner; followed by random batches. The loser is sometimes the same ingress as the
+// winner (one ingress declaring a host/path twice) and the contested item is a host/path or the default backend.
+func (g *c01gen) scenario() []string {
+	r := g.r
+	g.ns = []string{"d"}
+	g.host = []string{"a.local", "b.local", "c.local", ""}
+	g.svcs = []string{"app", "api", "web"}
+	var ops []string
+	for _, s := range g.svcs {
+		g.svc["d/"+s] = 1
+		ops = append(ops, fmt.Sprintf("svc+d/%s!%s!-", s, c01portsText(c01ports[1])), g.epOp("d", s))
+	}
+	ops = append(ops, "cls+hap:"+world.OurController)
+	tracer := func(s *world.IngressSpec) {
+		switch r.Intn(4) {
+		case 0:
+			s.Annotations["balance-algorithm"] = gen.Pick(r, []string{"leastconn", "first"})
+		case 1:
+			s.Annotations["maxconn-server"] = gen.Pick(r, []string{"10", "20"})
+		case 2:
+			s.Annotations["ssl-redirect"] = "false"
+		}
+	}
+	mk := func(name string, ts int) world.IngressSpec {
+		s := world.IngressSpec{Namespace: "d", Name: name, Annotations: map[string]string{}, ClassAnn: strp("haproxy")}
+		s.Created = c01tick(ts).Created
+		return s
+	}
+	order := []int{1, 2, 3}
+	if r.Chance(1, 3) {
+		gen.Shuffle(r, order)
+	}
+	g.ts = 3
+	contested := gen.Pick(r, []string{"/a", "/", "/b"})
+	ptype := gen.Pick(r, []string{"Prefix", "Exact", ""})
+	port := gen.Pick(r, []string{"80", "http"})
+	win, lose, other := mk("i1", order[0]), mk("i2", order[1]), mk("i3", order[2])
+	shape := r.Intn(3)
+	switch shape {
+	case 0: // host/path contested by two ingresses
+		win.Rules = []world.RuleSpec{{Host: "a.local", Paths: []world.PathSpec{{Path: contested, Type: ptype, Svc: "app", Port: port}}}}
+		lose.Rules = []world.RuleSpec{{Host: "a.local", Paths: []world.PathSpec{{Path: contested, Type: ptype, Svc: "api", Port: port}}}}
+	case 1: // default backend contested by two ingresses
+		win.DefaultBackend = &world.PathSpec{Svc: "app", Port: port}
+		lose.DefaultBackend = &world.PathSpec{Svc: "api", Port: port}
+	case 2: // one ingress declares the path twice; the loser is the second declaration
+		win.Rules = []world.RuleSpec{{Host: "a.local", Paths: []world.PathSpec{
+			{Path: contested, Type: ptype, Svc: "app", Port: port}, {Path: contested, Type: ptype, Svc: "api", Port: port}}}}
+		lose = win
+	}
+	tracer(&lose)
+	if shape == 2 {
+		win = lose
+	}
+	other.Rules = []world.RuleSpec{{Host: gen.Pick(r, []string{"b.local", "c.local"}), Paths: []world.PathSpec{{Path: "/", Type: "Prefix", Svc: "api", Port: port}}}}
+	if r.Chance(1, 3) {
+		tracer(&other)
+	}
+	first := []world.IngressSpec{win, lose, other}
+	if shape == 2 {
+		first = []world.IngressSpec{win, other}
+	}
+	if r.Chance(1, 2) {
+		gen.Shuffle(r, first)
+	}
+	for _, s := range first {
+		g.ing["d/"+s.Name] = s
+		ops = append(ops, "ing+"+world.IngressText(s))
+	}
+	if r.Chance(1, 2) { // the unrelated ingress arrives in a later batch
+		ops = ops[:len(ops)-1]
+		last := first[len(first)-1]
+		ops = append(ops, "sync")
+		if port == "80" && last.Name == "i3" && r.Chance(1, 2) {
+			// meanwhile the service maps the port to another target: the backend the loser resolves to changes
+			g.svc["d/api"] = 3
+			ops = append(ops, fmt.Sprintf("svc+d/api!%s!-", c01portsText(c01ports[3])), "sync")
+		}
+		ops = append(ops, "ing+"+world.IngressText(last))
+	}
+	ops = append(ops, "sync")
+	// the event that removes the winner
+	switch ev := r.Intn(5); {
+	case ev == 0 && shape != 2:
+		delete(g.ing, "d/i1")
+		ops = append(ops, "ing-d/i1")
+	case ev == 1 && shape != 2:
+		w2 := win
+		w2.ClassAnn = strp("other")
+		g.ing["d/i1"] = w2
+		ops = append(ops, "ing~"+world.IngressText(w2))
+	case ev == 2 && shape == 0:
+		w2 := win
+		w2.Rules = []world.RuleSpec{{Host: "a.local", Paths: []world.PathSpec{{Path: "/other", Type: ptype, Svc: "app", Port: port}}}}
+		g.ing["d/i1"] = w2
+		ops = append(ops, "ing~"+world.IngressText(w2))
+	case ev == 3 && port == "http":
+		g.svc["d/app"] = 3
+		ops = append(ops, fmt.Sprintf("svc+d/app!%s!-", c01portsText(c01ports[3])))
+	default:
+		delete(g.svc, "d/app")
+		ops = append(ops, "svc-d/app")
+	}
+	ops = append(ops, "sync")
+	nb := r.Range(0, 3)
+	for b := 0; b < nb; b++ {
+		no := r.Range(1, 3)
+		for i := 0; i < no; i++ {
+			ops = append(ops, g.randomOp()...)
+		}
+		ops = append(ops, "sync")
+	}
+	return ops
+}
+
+// tcpScenario: TCP-service ingresses contesting one port (by rule or by spec.defaultBackend), arriving in
+// creation order or not, the owner leaving; differentially tested only (outside the Lean fragment).
+func (g *c01gen) tcpScenario() []string {
+	r := g.r
+	g.ns = []string{"d"}
+	g.svcs = []string{"app", "api"}
+	var ops []string
+	for _, s := range g.svcs {
+		g.svc["d/"+s] = 1
+		ops = append(ops, fmt.Sprintf("svc+d/%s!%s!-", s, c01portsText(c01ports[1])), g.epOp("d", s))
+	}
+	order := []int{1, 2, 3}
+	gen.Shuffle(r, order)
+	g.ts = 3
+	mk := func(name string, ts int, svc string) world.IngressSpec {
+		s := world.IngressSpec{Namespace: "d", Name: name, Annotations: map[string]string{"tcp-service-port": "7000"}, ClassAnn: strp("haproxy")}
+		s.Created = c01tick(ts).Created
+		if r.Chance(1, 2) {
+			s.DefaultBackend = &world.PathSpec{Svc: svc, Port: "80"}
+		} else {
+			s.Rules = []world.RuleSpec{{Host: gen.Pick(r, []string{"", "", "a.local"}), Paths: []world.PathSpec{{Path: "/", Type: "Prefix", Svc: svc, Port: "80"}}}}
+		}
+		if r.Chance(1, 4) {
+			s.Annotations["tcp-service-port"] = "7001"
+		}
+		return s
+	}
+	ings := []world.IngressSpec{mk("i1", order[0], "app"), mk("i2", order[1], "api"), mk("i3", order[2], "app")}
+	n0 := r.Range(1, 3)
+	for _, s := range ings[:n0] {
+		g.ing["d/"+s.Name] = s
+		ops = append(ops, "ing+"+world.IngressText(s))
+	}
+	ops = append(ops, "sync")
+	for _, s := range ings[n0:] {
+		g.ing["d/"+s.Name] = s
+		ops = append(ops, "ing+"+world.IngressText(s), "sync")
+	}
+	nb := r.Range(1, 3)
+	for b := 0; b < nb; b++ {
+		names := g.ingNames()
+		if len(names) > 0 && r.Chance(2, 3) {
+			key := gen.Pick(r, names)
+			delete(g.ing, key)
+			ops = append(ops, "ing-"+key)
+		} else {
+			ops = append(ops, g.randomOp()...)
+		}
+		ops = append(ops, "sync")
+	}
+	return ops
+}
